@@ -72,7 +72,7 @@ class C12(Prop):
             "distinct canonical scenario JSON; crash phases are classified from the trace and counted")
     assumptions = ["a fault in an event function may leave the current step recorded or not (both accepted); every other phase must leave exactly the completed steps",
                    "status/success after a successful resume are not asserted (the statement is silent)",
-                   "final state after resume: bitwise equal to the twin when grids coincide for explicit fixed-step/splitting methods, otherwise within 200*(atol+rtol*|y|)*steps*amplification",
+                   "final state after resume: equal to the twin at rounding level (64 n eps) when grids coincide for explicit fixed-step/splitting methods, otherwise within 200*(atol+rtol*|y|)*steps*amplification",
                    "injected exceptions are Exception/KeyboardInterrupt subclasses; NaN from the rhs is not a fault kind"]
     CAP = 120
 
@@ -299,8 +299,14 @@ class C12(Prop):
         integ = w.system.integrator
         fam = gen.method_family(w.scn["system"]["method"])
         if bitwise_equal(tw, tt) and fam in ("explicit_fixed", "splitting"):
+            # same recorded times: a method without memory must give the same states; the step that was interrupted is re-taken with
+            # h = target - t formed at the entry of the new call, which may differ from the original h in the last bit (same recorded
+            # time after rounding): rounding level, not bitwise, for the rows from the resumed step on
             if not bitwise_equal(yw, yt):
-                bad("resume_equals_twin", "same grid as the twin but different states after resuming (fixed-step explicit method)", i)
+                err_ = float(np.max(np.abs(np.asarray(yw - yt, dtype=np.float64))))
+                bnd_ = 64 * len(tw) * eps_of(yw.dtype) * max(float(np.max(np.abs(np.asarray(yw, dtype=np.float64)))), 1e-300)
+                if not (err_ <= bnd_):
+                    bad("resume_equals_twin", "same grid as the twin but states differ by %.3e (> %.3e) after resuming (fixed-step explicit method)" % (err_, bnd_), i)
             return
         eps = eps_of(yw.dtype)
         rtol = float(getattr(integ, "rtol", 0.0))
